@@ -38,7 +38,12 @@ def seg_disk_area(x1, y1, x2, y2):
         ax, ay = x1 + dx * t0, y1 + dy * t0
         bx, by = x1 + dx * t1, y1 + dy * t1
         mx, my = 0.5 * (ax + bx), 0.5 * (ay + by)
-        if mx * mx + my * my < 1.0:
+        # a piece is a chord only if it also *ends* on/inside the circle: for
+        # an edge tangent to the circle within rounding the discriminant can
+        # come out <= 0 (no split) while the midpoint tests inside
+        if mx * mx + my * my < 1.0 \
+                and ax * ax + ay * ay <= 1.0 + 1e-9 \
+                and bx * bx + by * by <= 1.0 + 1e-9:
             tot += 0.5 * (ax * by - bx * ay)
         else:
             tot += 0.5 * math.atan2(ax * by - ay * bx, ax * bx + ay * by)
